@@ -244,7 +244,7 @@ def _b64_decodes_to(val, raw):
     return sx.And(conds)
 
 
-def q_wire(scheme, port, with_opts):
+def q_wire(scheme, port, with_opts, jar_only=None):
     """handshake(): the request is written with a single send before anything is read, CRLF-joined, ended by an empty line"""
     quiet_logging()
     import websocket._handshake as HS
@@ -262,6 +262,14 @@ def q_wire(scheme, port, with_opts):
         _no_crlf(c)
         opts = {"cookie": c, "subprotocols": ["a", "b"], "header": ["X-A: 1"]}
         sx.unit(sx.unit(HS, "CookieJar"), "jar")["." + host.lower()] = http.cookies.SimpleCookie("s=1")  # a cookie the server set earlier for this host
+    if jar_only is not None:
+        # the server set a cookie for this host on an earlier connection; the caller passes no cookie (absent / None / "")
+        import http.cookies
+        sx.unit(sx.unit(HS, "CookieJar"), "jar")["." + host.lower()] = http.cookies.SimpleCookie("s=1")
+        if jar_only == "none":
+            opts["cookie"] = None
+        elif jar_only == "empty":
+            opts["cookie"] = ""
     sock = FakeSock(["eof"])
     try:
         HS.handshake(sock, "%s://x/" % scheme, host, port, res, **opts)
@@ -281,6 +289,8 @@ def q_wire(scheme, port, with_opts):
     tail = "\r\nSec-WebSocket-Version: 13\r\nConnection: Upgrade\r\n"
     if with_opts:
         tail = tail + "Sec-WebSocket-Protocol: a,b\r\nX-A: 1\r\nCookie: s=1; " + opts["cookie"] + "\r\n"
+    if jar_only is not None and not with_opts:
+        tail = tail + "Cookie: s=1\r\n"
     tail = tail + "\r\n"
     tb = tail.encode()
     sx.require(wire[len(hb) + 24:] == tb, "version, connection, subprotocols, custom headers and cookie (jar cookies first, then the caller's) on the wire, in order")
@@ -530,7 +540,8 @@ def obligations(tier):
                    step_budget=100000, kernel=["WebSocket.connect (redirect loop)", "_handshake.handshake", "_get_handshake_headers"]),
         Obligation("Q-key", q_key, [{}], bounds="all 2^128 values of the 16 random bytes (symbolic), two successive requests", must_cover=["key"],
                    solver_timeout_ms=120000, kernel=["_create_sec_websocket_key", "_get_handshake_headers"]),
-        Obligation("Q-wire", q_wire, [dict(scheme=s, port=p, with_opts=w) for s in ("ws", "wss") for p in (80, 443, 8443) for w in (False, True)],
+        Obligation("Q-wire", q_wire, [dict(scheme=s, port=p, with_opts=w) for s in ("ws", "wss") for p in (80, 443, 8443) for w in (False, True)] +
+                   [dict(scheme="ws", port=8443, with_opts=False, jar_only=j) for j in ("absent", "none", "empty")],
                    bounds="host 3 / resource 2 / cookie 2 symbolic chars; ports 80, 443, 8443; ws and wss", must_cover=["wire"],
                    kernel=["_handshake.handshake", "_socket.send"]),
     ]
